@@ -13,13 +13,15 @@
 (*   cur      "absent" | "eur" | "zl"          currency_format             *)
 (*   year     "absent" | "y2024"               year: (default 2025)        *)
 (*   out      "absent" | "custom"              output_dir: + html_filename:*)
+(*   removed  settings.yaml still carries a key of a feature that was      *)
+(*            removed (home_state: ...): reported, otherwise without effect *)
 (***************************************************************************)
 EXTENDS Naturals, FiniteSets
 
 ModeKeys == {"absent", "first_match", "most_specific", "bogus"}
 Settings == [modeKey : ModeKeys, mfKey : BOOLEAN, mfFile : BOOLEAN, csvFile : BOOLEAN,
              vfKey : BOOLEAN, vfFile : {"missing", "ok", "corrupt"}, cur : {"absent", "eur", "zl"},
-             year : {"absent", "y2024"}, out : {"absent", "custom"}]
+             year : {"absent", "y2024"}, out : {"absent", "custom"}, removed : BOOLEAN]
 
 \* rule_mode: anything but the two known values falls back to first_match (and is reported)
 EffMode(s) == IF s.modeKey = "most_specific" THEN "most_specific" ELSE "first_match"
@@ -36,6 +38,7 @@ Warnings(s) ==
   \cup (IF s.mfKey /\ ~s.mfFile THEN {"merchants-file-not-found"} ELSE {})
   \cup (IF s.vfKey /\ s.vfFile = "missing" THEN {"views-file-not-found"} ELSE {})
   \cup (IF s.vfKey /\ s.vfFile = "corrupt" THEN {"views-error"} ELSE {})
+  \cup (IF s.removed THEN {"removed-settings"} ELSE {})
 Effective(s) == [mode |-> EffMode(s), rules |-> EffRules(s), views |-> EffViews(s), currency |-> EffCurrency(s),
                  year |-> EffYear(s), out |-> EffOut(s), warnings |-> Warnings(s)]
 
@@ -66,7 +69,7 @@ NothingIgnoredSilently(s) ==
   /\ (s.vfKey /\ ~EffViews(s)) => Warnings(s) \cap {"views-file-not-found", "views-error"} # {}
 \* and nothing is reported when everything is honoured
 NoSpuriousWarnings(s) ==
-  (s.modeKey # "bogus" /\ (s.mfKey => s.mfFile) /\ (s.vfKey => s.vfFile = "ok")) => Warnings(s) = {}
+  (s.modeKey # "bogus" /\ (s.mfKey => s.mfFile) /\ (s.vfKey => s.vfFile = "ok") /\ ~s.removed) => Warnings(s) = {}
 \* a configured merchants_file is never replaced by the legacy CSV behind the user's back
 KeyWins(s) == s.mfKey => EffRules(s) # "csv"
 \* settings are independent: changing one key changes only the part of the configuration it governs
@@ -76,6 +79,10 @@ Independent(s) ==
   /\ \A c \in {"absent", "eur", "zl"} : LET t == [s EXCEPT !.cur = c] IN
         EffRules(t) = EffRules(s) /\ EffViews(t) = EffViews(s) /\ EffMode(t) = EffMode(s) /\ Warnings(t) = Warnings(s)
   /\ \A v \in BOOLEAN : LET t == [s EXCEPT !.vfKey = v] IN EffRules(t) = EffRules(s) /\ EffMode(t) = EffMode(s)
+  \* a leftover key of a removed feature changes nothing but its own warning
+  /\ LET t == [s EXCEPT !.removed = ~s.removed] IN
+        /\ EffRules(t) = EffRules(s) /\ EffViews(t) = EffViews(s) /\ EffMode(t) = EffMode(s) /\ EffCurrency(t) = EffCurrency(s)
+        /\ Warnings(t) \ {"removed-settings"} = Warnings(s) \ {"removed-settings"}
   /\ \A y \in {"absent", "y2024"}, o \in {"absent", "custom"} : LET t == [s EXCEPT !.year = y, !.out = o] IN
         EffRules(t) = EffRules(s) /\ EffViews(t) = EffViews(s) /\ EffMode(t) = EffMode(s) /\ Warnings(t) = Warnings(s)
 =============================================================================
